@@ -19,7 +19,8 @@ RULE = ("BipLab: real BIPSimple / BIPBBMD / BIPForeign layers over real AnnexJCo
         "t_ack+TTL+31 s, and must not be served or listed afterwards; renewal frames leave it at most TTL apart; after an "
         "acknowledged Delete-FDT-Entry it is not served by that BBMD until it registers again; after unregister() it stops within "
         "the grace period. Non-trivial: broadcast crossing >= 1 BBMD or involving a foreign device. Distinct by (layout, timeline)."
-        " Also: subnets of different prefix lengths; broadcasts in the very instant of a renewal.")
+        " Also: subnets of different prefix lengths; broadcasts in the very instant of a renewal."
+        " One reduced copy of a generated shard runs with the library's debug tracing switched on (label tracing-on).")
 ASSUMPTIONS = [
     "a foreign device never sits on the subnet of the BBMD it registers with, and sits next to another BBMD only when the tables use two-hop (all-ones) masks: a foreign device that can hear its registrar's own broadcast datagrams gets Annex J duplicates by design",
     "the grace constant is not fixed by the statement (the library uses 5 s in the BBMD and 30 s in the device; Annex J says 30): only the two-sided window is judged",
